@@ -108,6 +108,9 @@ class Check:
             self.event_counts[k] = self.event_counts.get(k, 0) + v
         if len(self.samples) < 3:
             self.samples.extend(br.samples[: 3 - len(self.samples)])
+        for inf in br.infos:
+            if inf.get("ntrials", 0) >= 1:
+                self.distinct.add(json.dumps(sweep._jsonable(inf), sort_keys=True))
         mytag = "P:" + self.pid
         for n in br.notes:
             if n["tag"] == mytag:
@@ -129,7 +132,13 @@ class Check:
                     any(_sub(m.get("run", {}), r) for r in (ctx["runs"] or [{}])):
                 self.known_seen[k["id"]] = self.known_seen.get(k["id"], 0) + 1
                 return
-        sig = (n["name"], n["event"].get("ev"), n["event"].get("phase"), n["event"].get("comp"))
+        ev = n["event"]
+        if ev.get("ev") == "Raise":
+            sig = (n["name"], "Raise", ev.get("type"), ev.get("frame"))
+        elif "changed" in ev and ev.get("changed"):
+            sig = (n["name"], ev.get("ev"), ev.get("phase"), tuple(ev.get("changed")))
+        else:
+            sig = (n["name"], ev.get("ev"), ev.get("phase"), ev.get("comp"))
         self.add_violation(sig, {"clause": n["name"], "event": sweep._slim(n["event"]), "info": n["info"]}, n["spec"])
 
     def add_violation(self, sig, detail, spec):
